@@ -42,7 +42,7 @@ def c06_assign():
     o = next(p for p in i.reference.ports if p.name == 'o')
     w = i.pins[o.pins[0]].wire
     print('   C06 assign: pin o[0] should carry b[6]; carries b[%d]' % (w.cable.lower_index + w.cable.wires.index(w)))
-    roundtrip(n)   # C04: AssertionError "multiple cables appear to be connected to a single assignment input"
+    roundtrip(n)   # C04: raised AssertionError "multiple cables appear to be connected to a single assignment input" before fde4fe6
 
 
 def c06_port_order():
